@@ -21,6 +21,9 @@ RULES = {
              're-acquired while held',
     'C10.d': 'no may-panic site in any function registered in the parser table; the dispatcher entry turns a '
              'parse error into Response::Error',
+    'C10.e': 'no input-controlled recursion: a dispatcher arm that re-enters the request entry with text taken from the request '
+             'first refuses text that starts with a command word whose own arm re-enters (a wrapper wraps exactly one command), '
+             'so the depth of the handler stack does not depend on what a client sends',
 }
 
 NOT_THE_NODE = ('nundb::client::', 'nundb::command_line::', '<nundb::client::')   # client library and CLI tool
@@ -510,6 +513,11 @@ SIDE_CONDITIONS = {
 
 # ------------------------------------------------------------------------------------------
 def run(ck, m):
+    _run(ck, m)
+    reentry_rule(ck, m)
+
+
+def _run(ck, m):
     for k, v in RULES.items():
         ck.rule(k, v)
     P = m.prog
@@ -806,3 +814,71 @@ def tarjan(G):
         if v not in idx:
             sc(v)
     return out
+
+
+
+def reentry_rule(ck, m):
+    """C10.e — recursion depth of the handler"""
+    P = m.prog
+    d, sw = m.dispatcher()
+    pr = m.reentry_names()
+    parsers, words = parser_table(m)
+    prods, schemas = wire_facts(m)
+    # arms (variants) that contain a re-entry site, directly or through their closures / local helpers
+    sites = []
+    seen = set()
+    st = [d]
+    while st:
+        b = st.pop()
+        if b.id in seen:
+            continue
+        seen.add(b.id)
+        for bi, t in b.calls():
+            n = callee(t)
+            if n in pr:
+                sites.append((b, bi))
+                continue
+            cb = P.bodies.get(n)
+            if cb is not None and not t['f'].get('ind') and node_body(cb):
+                st.append(cb)
+        for k, cb in P.bodies.items():
+            if k.startswith(b.id + '::{closure') and k not in seen:
+                st.append(cb)
+    # words whose parser builds a variant with a re-entering arm (only sites inside the dispatcher body are attributed)
+    variants = set()
+    for b, bi in sites:
+        if b.id == d.id:
+            for v, tb in sw[1].items():
+                if tb != sw[2] and bi in m.arm_region(d, sw, v):
+                    variants.add(v)
+    rewords = sorted(w for w, (top, vs, reason) in schemas.items() if set(vs or ()) & variants)
+    for b, bi in sites:
+        t = b.term(bi)
+        text_roots = {(r[0], r[1] if len(r) > 1 else None, r[-1]) for r in origins(b, t['args'][0])}
+        from_request = any(r[0] in ('param', 'capture') for r in origins(b, t['args'][0]))
+        if not from_request:
+            ck.ob('C10.e', short(b.id), 're-entry:constant-text', True,
+                  'the re-entered text is built by the node itself (not taken from the request)', b.loc(bi))
+            continue
+        refused = set()
+        for x, tx in b.calls():
+            if callee_decl(tx) not in ('std::str::starts_with', 'std::cmp::PartialEq::eq', 'std::str::eq') or not b.dominates(x, bi):
+                continue
+            same = any((r[0], r[1] if len(r) > 1 else None, r[-1]) in text_roots for r in origins(b, tx['args'][0]))
+            consts = [core.const_str(r) for a in tx['args'][1:] for r in origins(b, a)]
+            if not same:
+                continue
+            for (s2, tt, ft) in core.bool_switches(b, x):
+                if bi in b.reach_from([tt], include_start=True):
+                    continue          # the matching text still reaches the re-entry
+                for c in consts:
+                    if isinstance(c, str) and callee_decl(tx) == 'std::str::starts_with':
+                        refused.add(c.rstrip(' '))
+        missing = [w for w in rewords if w not in refused]
+        ok = bool(rewords) and not missing
+        ck.ob('C10.e', short(b.id), 're-entry:bounded-depth', ok,
+              'text starting with %s is refused before the request entry is re-entered: one level of wrapping at most' % rewords if ok else
+              'the arm re-enters the request entry with text taken from the request and does not refuse a nested %s: `%s` repeated a few '
+              'hundred times in one command line recurses once per repetition and exhausts the stack of the handler thread (the process aborts), '
+              'before any authentication' % (missing or '(wrapper word not identified)', ' '.join((missing or ['rp'])[:1]) + ' 1 '), b.loc(bi))
+    ck.floor('C10.e', len(sites), 1, 're-entry sites of the request entry reachable from the dispatcher')
